@@ -209,7 +209,7 @@ func igGitBatch(g *fw.Git, repo string, names []string, qs [][]igQuery) [][]igAn
 type c49Kind struct {
 	name   string
 	roles  []string
-	maxTok int
+	maxTok []int // per pattern
 	asRoot bool // must be evaluated at a real work-tree root (uses info/exclude)
 }
 
@@ -273,6 +273,56 @@ func c49Excluded(cfg igConfig) bool {
 	return false
 }
 
+// c49DefectClass recognises, by a predicate on the minimised configuration and
+// the disagreeing query, the known defect families, so that one defect has one
+// key whatever the bound. "" = unclassified (the key is then the minimal case).
+func c49DefectClass(dir int, cfg igConfig, q igQuery) string {
+	comps := strings.Split(q.Path, "/")
+	var all []string
+	all = append(append(append(all, cfg.Excl...), cfg.Root...), cfg.Sub...)
+	matches := func(pat string, path []string, isDir bool) bool {
+		defer func() { recover() }()
+		return gitignore.ParsePattern(pat, nil).Match(path, isDir) == gitignore.Exclude
+	}
+	switch dir {
+	case 1: // git ignores, go-git does not
+		for _, p := range all {
+			if strings.HasPrefix(p, "!") && len(p) > 1 {
+				// the negation names a proper ancestor directory of the path
+				// (patterns of a/.gitignore are relative to a/)
+				for cut := 1; cut < len(comps); cut++ {
+					if matches(p[1:], comps[:cut], true) || (len(cfg.Sub) > 0 && cut > 1 && comps[0] == "a" && matches(p[1:], comps[1:cut], true)) {
+						return "a negated pattern naming a parent directory re-includes the whole subtree"
+					}
+				}
+			}
+		}
+		for _, p := range all {
+			if strings.Contains(p, "\\/") {
+				return "an escaped slash is treated as a separator"
+			}
+		}
+		for _, p := range all {
+			if i := strings.Index(p, "**/"); i >= 0 && (i == 0 || p[i-1] == '/') && strings.Contains(strings.TrimSuffix(p[i+3:], "/"), "/") {
+				return "`**/x/y` does not backtrack over the directories `**` may span"
+			}
+		}
+	case 0: // go-git ignores, git does not
+		for _, p := range all {
+			t := strings.TrimSuffix(strings.TrimRight(p, " "), "/")
+			if strings.HasSuffix(t, "/**") && q.IsDir && !strings.HasPrefix(p, "!") && matches(strings.TrimSuffix(t, "/**"), comps, true) {
+				return "a trailing `/**` matches the directory itself"
+			}
+		}
+		for _, p := range all {
+			if strings.Contains(p, "//") {
+				return "empty pattern segments (`//`) are skipped"
+			}
+		}
+	}
+	return ""
+}
+
 // c49Res is the comparison result of one configuration: for each direction the
 // first disagreeing query (-1 = none).
 type c49Res struct {
@@ -284,11 +334,12 @@ func runC49(c *fw.Ctx) {
 	// token order = simplicity rank used when minimising
 	tokens := []string{"a", "b", "*", "?", "[ab]", "**", "/", "!", "\\", " ", "#"}
 	single := c.Pick(4, 5)
-	pairTok := c.Pick(2, 3)
+	pairTok := 2
+	pairFirst := c.Pick(2, 3) // the first (lower-priority) pattern of a pair may be longer in the thorough tier
 	exclTok := c.Pick(1, 2)
 	c.Bound("pattern_tokens", tokens)
 	c.Bound("max_tokens_single_root_pattern", single)
-	c.Bound("max_tokens_per_pattern_in_pairs", pairTok)
+	c.Bound("max_tokens_per_pattern_in_pairs", []int{pairFirst, pairTok})
 	c.Bound("max_tokens_per_pattern_with_info_exclude", exclTok)
 
 	// paths: depth <=2 over {a,b,ab}, depth 3 over {a,b}; each as file and as directory
@@ -332,28 +383,27 @@ func runC49(c *fw.Ctx) {
 
 	nTok := len(tokens)
 	kinds := []c49Kind{
-		{"A", []string{"root"}, single, false},
-		{"B", []string{"root", "root"}, pairTok, false},
-		{"C", []string{"root", "sub"}, pairTok, false},
-		{"D", []string{"excl", "root"}, exclTok, true},
-		{"E", []string{"excl", "root", "sub"}, 1, true},
+		{"A", []string{"root"}, []int{single}, false},
+		{"B", []string{"root", "root"}, []int{pairFirst, pairTok}, false},
+		{"C", []string{"root", "sub"}, []int{pairFirst, pairTok}, false},
+		{"D", []string{"excl", "root"}, []int{exclTok, exclTok}, true},
+		{"E", []string{"excl", "root", "sub"}, []int{1, 1, 1}, true},
 	}
 	seqAt := func(idx int) []int { return c41SeqAt(nTok, idx) }
 	// configuration i of a kind: mixed-radix over per-pattern string indices
 	patsAt := func(k c49Kind, i int) [][]int {
-		per := fw.CountStrings(nTok, k.maxTok)
 		out := make([][]int, len(k.roles))
 		for j := len(k.roles) - 1; j >= 0; j-- {
+			per := fw.CountStrings(nTok, k.maxTok[j])
 			out[j] = seqAt(i % per)
 			i /= per
 		}
 		return out
 	}
 	countOf := func(k c49Kind) int {
-		per := fw.CountStrings(nTok, k.maxTok)
 		n := 1
-		for range k.roles {
-			n *= per
+		for j := range k.roles {
+			n *= fw.CountStrings(nTok, k.maxTok[j])
 		}
 		return n
 	}
@@ -615,6 +665,17 @@ func runC49(c *fw.Ctx) {
 		}
 		for changed := true; changed; {
 			changed = false
+			for pi := range cur { // drop a whole pattern
+				if len(cur[pi]) > 1 {
+					cand := make([][]int, len(cur))
+					copy(cand, cur)
+					cand[pi] = nil
+					if failsDir(evalOne(kd, cand), dir) {
+						cur = cand
+						changed = true
+					}
+				}
+			}
 			for pi := range cur {
 				for d := 0; d < len(cur[pi]); d++ {
 					cand := make([][]int, len(cur))
@@ -711,6 +772,11 @@ func runC49(c *fw.Ctx) {
 				desc += fmt.Sprintf(" a/.gitignore=%q", x)
 			}
 			key := dirNames[dir] + ":" + desc + qdesc
+			if qi >= 0 {
+				if cl := c49DefectClass(dir, mcfg, qs[qi]); cl != "" {
+					key = dirNames[dir] + ": class " + cl
+				}
+			}
 			c.Fail(key, fmt.Sprintf("%s (minimised from kind %s %s)", key, st.kd.name, st.kd.config(st.pats, tokens)),
 				map[string]any{"kind": st.kd.name, "config": st.kd.config(st.pats, tokens), "minimal_config": mcfg, "direction": dirNames[dir], "panic": fmt.Sprint(r.panicv)})
 		}
